@@ -40,6 +40,7 @@ func init() {
 		"(*bytes.Buffer).WriteString":              bufWriteString,
 		"(*bytes.Buffer).Bytes":                    bufBytes,
 		"(*bytes.Buffer).Len":                      bufLen,
+		"(*bytes.Buffer).Grow":                     bufGrow,
 		"bytes.NewBuffer":                          bytesNewBuffer,
 		"bytes.ContainsRune":                       bytesContainsRune,
 		"bytes.IndexByte":                          bytesIndexByte,
@@ -284,6 +285,14 @@ func bufBytes(f *Frame, st *state, callee *ssa.Function, args []Val, ins ssa.Ins
 	u.setArr(st.mem, bufFrozSite, SBool, store(u.arr(st.mem, bufFrozSite, SBool), args[0].S[0], "true"))
 	// an empty Buffer returns a nil slice (b.buf[b.off:] of a nil buf)
 	return &Val{T: resT, S: []string{ite(eq(L, "0"), "0", p), L, ite(eq(L, "0"), "0", c)}}
+}
+
+// Grow changes only the capacity: the ghost content and length stay; a negative count panics.
+func bufGrow(f *Frame, st *state, callee *ssa.Function, args []Val, ins ssa.Instruction, resT types.Type) *Val {
+	u := f.u
+	u.bufState(f, st, args[0], ins, true)
+	u.oblige(f, st, "panic", f.ordLabel(ins, "call")+" bytes.Buffer.Grow: negative count", ins.Pos(), le("0", args[1].S[0]))
+	return nil
 }
 
 func bufLen(f *Frame, st *state, callee *ssa.Function, args []Val, ins ssa.Instruction, resT types.Type) *Val {
